@@ -179,6 +179,12 @@ class Loop:
             self.pos += 1
             self.current = ev.get('name', ev['type'])
             t = ev['type']
+            if t == 'drain':
+                # closing phase: as long as the legitimate session is not through (a request of the daemon whose transmission was made to fail only goes out
+                # again when its retransmission timer fires, the peer's turn came while it had nothing to send ...) it gets further turns and time passes - bounded
+                if not self.legit.completed and ev['left'] > 0 and not getattr(self, 'own_teardown', False):
+                    self.script[self.pos:self.pos] = [{'type': 'legit'}, {'type': 'legit'}, {'type': 'tick', 'name': 'tick', 'dt': 1.0}, {'type': 'drain', 'left': ev['left'] - 1}]
+                continue
             if t == 'legit':
                 data = self.legit.next_datagram()
                 if data is None:
@@ -520,7 +526,7 @@ def run_behaviour(kinds_sequence, seed, rnd, edit_silent_peer=None):
     # closing: retransmissions of whatever the legitimate peer still waits for, then a status query
     # (time passes, too: a request of the daemon whose transmission was made to fail goes out again when its retransmission timer fires)
     tick = {'type': 'tick', 'name': 'tick', 'dt': 1.0}
-    tail = [{'type': 'legit'}] * 3 + [tick] * 3 + [{'type': 'legit'}] * 3 + [tick] * 5 + [{'type': 'legit'}] * 4 + [{'type': 'control', 'name': 'final-status'}]
+    tail = [{'type': 'legit'}] * 3 + [tick] * 3 + [{'type': 'legit'}] * 3 + [tick] * 5 + [{'type': 'legit'}] * 4 + [{'type': 'drain', 'left': 25}, {'type': 'control', 'name': 'final-status'}]
     try:
         ex = loop.run(script + tail)
         return loop, ex
